@@ -175,7 +175,7 @@ type corpusItem struct {
 
 func TestCheck(t *testing.T) {
 	r := vp.New("C13", "exploration",
-		"advertisements: product of {previous link} x {entries: NoEntries, dag-json link, dag-cbor link} x {0..2 addresses} x {context ID 0/1/64} x {metadata 0/1/1024} x {signature empty/non-empty} x {IsRm} x {extended providers absent / present with 0,1,2 providers} x {override} x {zero-length lists and byte strings empty / nil}; what is decoded must encode to the bytes it was decoded from, and a loaded value stored again must give the same CID; entry chunks: 0..3 multihashes of mixed hash functions x {next link}; both codecs; store twice through Linkproto; load with typed and with generic prototype. Decoder: for each corpus block every single-byte substitution, every truncation, CBOR header tokens / JSON structural tokens at every offset, all byte strings of length <=2, for both decoders and both codecs and for the generic-node unwrap path. Non-trivial: values with at least one optional part or list element; decoder inputs other than the corpus itself.",
+		"advertisements: product of {previous link} x {entries: NoEntries, dag-json link, dag-cbor link} x {0..2 addresses} x {context ID 0/1/64} x {metadata 0/1/1024} x {signature empty/non-empty} x {IsRm} x {extended providers absent / present with 0,1,2 providers} x {override} x {zero-length lists and byte strings empty / nil}; what is decoded must encode to the bytes it was decoded from, and a loaded value stored again must give the same CID; entry chunks: 0..3 multihashes of mixed hash functions (sha2-256, sha2-512, identity, truncated sha2-256, a two-byte code (blake2b-256), a length of two varint bytes) x {next link}; both codecs; store twice through Linkproto; load with typed and with generic prototype. Decoder: for each corpus block every single-byte substitution, every truncation, CBOR header tokens / JSON structural tokens at every offset, all byte strings of length <=2, for both decoders and both codecs and for the generic-node unwrap path. Non-trivial: values with at least one optional part or list element; decoder inputs other than the corpus itself.",
 		"equality is semantic: nil and empty are the same for non-optional lists and byte strings; optional parts must keep absent-vs-present",
 		"decoder inputs are within one token of a valid block or at most 2 bytes long",
 	)
@@ -331,7 +331,17 @@ func TestCheck(t *testing.T) {
 	}
 
 	// ---- entry chunks ----
-	mhAlpha := []multihash.Multihash{fixture.Mh("a", multihash.SHA2_256, -1), fixture.Mh("b", multihash.SHA2_512, -1), fixture.Mh("c", multihash.IDENTITY, -1), fixture.Mh("d", multihash.SHA2_256, 20)}
+	// also multihashes whose code or whose length takes more than one byte of
+	// varint (blake2b-256 = 0xb220; an identity multihash of 130 bytes)
+	blake, err := multihash.Encode(fixture.Bytes(32, 9), 0xb220)
+	if err != nil {
+		t.Fatal(err)
+	}
+	longIdentity, err := multihash.Encode(fixture.Bytes(130, 10), multihash.IDENTITY)
+	if err != nil {
+		t.Fatal(err)
+	}
+	mhAlpha := []multihash.Multihash{fixture.Mh("a", multihash.SHA2_256, -1), fixture.Mh("b", multihash.SHA2_512, -1), fixture.Mh("c", multihash.IDENTITY, -1), fixture.Mh("d", multihash.SHA2_256, 20), blake, longIdentity}
 	var mhLists [][]int
 	var gen func(cur []int)
 	gen = func(cur []int) {
